@@ -115,12 +115,18 @@ def run_unit(unit, conf):
     failed = verus_run.attribute(res, meta, text)
     r["failed"] = failed
     r["raw_err"] = res["raw_err"]
+    axiom_canaries = {}
     for fn, ent in res["functions"].items():
-        r["obligations"][short(fn)] = ent
+        if short(fn).split("::")[-1].startswith("canary_"):
+            axiom_canaries[short(fn)] = ent      # hand-written `ensures false` lemmas over the prelude axioms: must FAIL
+        else:
+            r["obligations"][short(fn)] = ent
     # canary evaluation: every canary'd fn must have an 'assertion failed'
     cfailed = verus_run.attribute(cres, cmeta, open(canary_path, encoding="utf-8").read())
     vac = [n for n in canary_names if not any(d["message"].startswith("assertion failed") for d in cfailed.get(n, []))]
-    r["canary"] = {"functions": len(canary_names), "failed_as_required": len(canary_names) - len(vac), "vacuous": vac,
+    vac += [n for n, e in axiom_canaries.items() if e["success"]]
+    r["canary"] = {"functions": len(canary_names), "failed_as_required": len(canary_names) - len([v for v in vac if v in canary_names]),
+                   "axiom_canaries": {n: (not e["success"]) for n, e in axiom_canaries.items()}, "vacuous": vac,
                    "compile_error": cres["compile_error"]}
     r["wall_s"] = round(time.time() - t0, 2)
     # classification
